@@ -179,11 +179,15 @@ impl SyncBlocker {
 
     #[inline]
     pub fn unpark(&self) {
-        self.blocker.unpark();
-        #[cfg(may_verif)]
-        may_queue::verif::point(may_queue::verif::site::SYNCBLOCKER_UNPARK_MID, self as *const _ as usize);
+        // publish the flag before the wake up: a waiter that is resumed by something
+        // else in between (a cancel it ignores, a timeout) clears the park token when
+        // it comes back, the flag is then the only trace of this unpark. If it were
+        // set after the wake up such a waiter would park again and never be woken.
         self.unparked.store(true, Ordering::Release);
         // see set_release
         fence(Ordering::SeqCst);
+        #[cfg(may_verif)]
+        may_queue::verif::point(may_queue::verif::site::SYNCBLOCKER_UNPARK_MID, self as *const _ as usize);
+        self.blocker.unpark();
     }
 }
